@@ -4,25 +4,25 @@ import json, os
 ROOT = os.path.dirname(os.path.dirname(os.path.abspath(__file__)))
 
 RT_NOTE = ("Trusted: go/reflect based driver (mockdrv) for observation, TLC for enumeration and judgement. "
-           "Corpus: 8 interface shapes x 16 flag/destination variants generated by the real moq CLI on every run.")
+           "Corpus: 14 interfaces (arity and type shapes, generics, embedding, self-returning methods, same-named methods under other parameter names, names close to the generated ones, one interface under two mock names) x 16 flag/destination variants, all generated in ONE run of the real moq CLI per variant on every check run.")
 CHECKS = {
  "C03": dict(cat="model_checking", ref="§6 C03, §5.2",
-   text="TLC enumerates every sequential history of MockSeq (requirement object MockAbs) up to the tier's length; each is replayed on real generated mocks (all 16 flag/destination variants x every method as subject) comparing per step what each configured function was invoked with (fingerprints, goroutine), results and panics; recorded random traces are validated back against MockSeqTrace by TLC. 'The very same arguments' is also checked under concurrency: schedule exploration of call||call scenarios with an argument check inside the configured function.",
+   text="TLC enumerates every sequential history of MockSeq (requirement object MockAbs) up to the tier's length; each is replayed on real generated mocks (all 16 flag/destination variants x every method as subject) comparing per step what each configured function was invoked with (fingerprints, goroutine), results and panics; recorded random traces are validated back against MockSeqTrace by TLC. 'The very same arguments' is also checked under concurrency: schedule exploration of call||call scenarios with an argument check inside the configured function. Every third invocation of a configured function returns the zero value of every result (nil error, nil interface). Plus the command-line scenarios of Cli.tla in which an earlier run with other flags or an older source left a mock at -out: after the run the file is the mock this command describes (CliTrace!Current).",
    tech="TLA+ spec (MockAbs/MockSeq) + TLC enumeration replayed on real mocks + TLC trace validation (MockSeqTrace)", note=RT_NOTE),
  "C04": dict(cat="model_checking", ref="§6 C04, §5.2",
-   text="Same pipeline as C03; decides recording: state after every step, what is visible inside the function, snapshot contents field by field, stability of slices returned earlier, zero-value mock.",
+   text="Same pipeline as C03; decides recording: state after every step, what is visible inside the function, snapshot contents field by field, stability of slices returned earlier, zero-value mock; the stale-mock scenarios of Cli.tla as for C03.",
    tech="TLA+ spec (MockAbs/MockSeq) + TLC enumeration replayed on real mocks + TLC trace validation (MockSeqTrace)", note=RT_NOTE),
  "C05": dict(cat="model_checking", ref="§6 C05, §5.2, App. B",
    text="Generated code is recompiled against a scheduler-controlled stand-in for sync with yield points at every record access; all schedules of 24 hand-written and seeded random 2-3 goroutine scenarios are executed on real mocks (state-pruned DFS). Verdict: poised conflicting accesses (data race), stale returned slices, and every distinct observed history must be linearizable w.r.t. the atomic-list object, decided by TLC on MockLin. The untouched code also runs under the Go race detector. MockImpl (the template's algorithm) is model checked per scenario and its labelled state graph must equal the real mock's; thorough adds an Apalache-discharged inductive invariant (MockLock) for executions of any length.",
    tech="controlled-scheduler exhaustive schedule exploration of real mocks + TLC linearizability check (MockLin) + race detector", note=RT_NOTE + " Preemption granularity: sync operations, record accesses (append split in read/write halves), operation starts."),
  "C06": dict(cat="model_checking", ref="§6 C06, §5.2, App. B",
-   text="Same sched build as C05: exact deadlock detection over all schedules of the scenarios (re-entrant callbacks, callbacks blocked until another goroutine finished its operations, nil-function panics followed by further use), and at every function entry the set of mock locks held by the caller must be empty.",
+   text="Same sched build as C05: exact deadlock detection over all schedules of the scenarios (re-entrant callbacks, callbacks blocked until another goroutine finished its operations, nil-function panics followed by further use), and at every function entry the set of mock locks held by the caller must be empty. A logical goroutine that never reaches its next gate (blocked on a primitive outside the mock's locks, e.g. a WaitGroup) is noticed by a time limit, reproduced on a fresh mock and reported as 'an operation never returns'.",
    tech="controlled-scheduler exhaustive schedule exploration of real mocks; lock state and enabledness as in the RWMutex model of MockImpl", note=RT_NOTE),
  "C07": dict(cat="model_checking", ref="§6 C07, §5.2",
-   text="Same pipeline as C03; decides the nil-function behaviour at every position of every enumerated history: default mode panics with a message naming mock type, field and interface method and invokes nothing; stub mode records and returns zero values. Plus the command-line scenarios of Cli.tla whose -out path holds the output of an earlier run with the other -stub setting (the flag must be honoured).",
+   text="Same pipeline as C03; decides the nil-function behaviour at every position of every enumerated history: default mode panics with a message naming mock type, field and interface method and invokes nothing; stub mode records and returns zero values. Plus the command-line scenarios of Cli.tla whose -out path holds the output of an earlier run with the other -stub setting (the flag must be honoured), and the flag plumbing (command line vs. library for the same configuration), including flags written after the positional arguments.",
    tech="TLA+ spec (MockAbs/MockSeq) + TLC enumeration replayed on real mocks + TLC trace validation (MockSeqTrace)", note=RT_NOTE),
  "C08": dict(cat="model_checking", ref="§6 C08, §5.2",
-   text="Same pipeline as C03; decides reset behaviour (per-method reset isolated, ResetCalls complete, recording restarts from empty, also from inside callbacks) and the presence/absence of reset methods per flag via the real CLI flag; the static half (which reset methods exist) is also judged by GenTrace on the flag, generic and hand-written generator corpora (method-less, generic, embedded, aliased interfaces).",
+   text="Same pipeline as C03; decides reset behaviour (per-method reset isolated, ResetCalls complete, recording restarts from empty, also from inside callbacks) and the presence/absence of reset methods per flag via the real CLI flag; the static half (which reset methods exist) is also judged by GenTrace on the flag, generic and hand-written generator corpora (method-less, generic, embedded, aliased interfaces, method names close to the generated ones); the stale-mock scenarios of Cli.tla as for C03.",
    tech="TLA+ spec (MockAbs/MockSeq) + TLC enumeration replayed on real mocks + TLC trace validation (MockSeqTrace)", note=RT_NOTE),
 }
 GEN_NOTE = ("Trusted: go/parser+go/types as observation instrument (type errors in the destination package, resolution of every identifier, "
@@ -32,25 +32,25 @@ GEN_NOTE = ("Trusted: go/parser+go/types as observation instrument (type errors 
 GEN = "abstract input universes materialised as Go packages + production moq + go/types projection judged by TLC on spec/GenTrace.tla; Registry/Scope TLA+ models predict aliases, names, divergence (drift + finding shapes)"
 CHECKS.update({
  "C01": dict(cat="model_checking", ref="§6 C01, §5.1", tech=GEN, note=GEN_NOTE,
-   text="Every case of the type, import, name, generic, flag and multi-interface corpora (all type constructors in all signature positions; ordered selections of adversarial import paths; parameter-name universe; 7 constraint kinds; all 32 flag/destination combinations) is generated and type-checked in its destination package; TLC evaluates FileWellFormed (C01) on every observation record."),
+   text="Every case of the type, import, name, generic, flag, multi-interface, cross-method, hand-written and seeded random (plain, generic, multi-interface) corpora (all type constructors in all signature positions; ordered selections of adversarial import paths incl. keyword/digit/vendor-like elements; parameter-name universe, 12-variable methods; 15 constraint kinds; all 32 flag/destination combinations) is generated and type-checked in its destination package; TLC evaluates FileWellFormed (C01) on every observation record. Flag plumbing: for 18 flag combinations the binary's stdout equals the library's output for the corresponding configuration."),
  "C02": dict(cat="model_checking", ref="§6 C02, §5.1", tech=GEN, note=GEN_NOTE,
    text="For every case the canonical signature keys (full package paths, names stripped) of interface methods, mock methods and func fields are compared by TLC (MockImplements), plus assignability, with and without the ensure line; generic mocks on instantiations."),
  "C09": dict(cat="model_checking", ref="§6 C09, §5.1", tech=GEN, note=GEN_NOTE,
-   text="Generic corpus (any, comparable, method, union, named constraint from another package, mixed; 1-3 parameters, swapped and lower-case names) x destinations x flags: type-parameter count/order/constraints compared, and for every type-argument list over 9 candidate types: I[args] valid <=> Mock[args] valid, and then *Mock[args] assignable to I[args] with identical signatures (GenericKept)."),
+   text="Generic corpus (15 constraint kinds: any, comparable, method sets, unions, named constraints local and from other packages, comparable or a marker interface ahead of a union, mixed; 1-3 parameters, swapped, lower-case and initialism-like names, unnamed parameters of type-parameter type) and seeded random generic interfaces x destinations x flags: type-parameter count/order/constraints compared, and for every type-argument list over 9 candidate types: I[args] valid <=> Mock[args] valid, and then *Mock[args] assignable to I[args] with identical signatures (GenericKept)."),
  "C10": dict(cat="model_checking", ref="§6 C10, §5.1", tech=GEN, note=GEN_NOTE,
-   text="Four destination modes x skip-ensure x signatures that do/do not mention source-package types (also only in constraints): imports of the source path, qualified and bare uses of source-package objects resolved by go/types, judged by TLC (C10 predicate)."),
+   text="Four destination modes x skip-ensure x signatures that do/do not mention source-package types (also only in constraints): imports of the source path, qualified and bare uses of source-package objects resolved by go/types, judged by TLC (C10 predicate), plus 'misresolved' references: mock and interface signatures walked in parallel, a same-named type of another package at the same position."),
  "C11": dict(cat="model_checking", ref="§6 C11, §5.1", tech=GEN, note=GEN_NOTE,
-   text="Import corpus: every ordered selection of up to 3 packages from an adversarial path/name universe (equal base names, equal after sanitising, concatenation clashes, version suffixes) with source-alias variants; TLC judges exactness, canonical paths, unique valid qualifiers, sync iff needed, free source aliases kept; the Registry model (exhaustive over map-order choices) predicts every alias and classifies duplicate/divergent shapes."),
+   text="Import corpus: every ordered selection of up to 3 packages from an adversarial path/name universe (equal base names, equal after sanitising, concatenation clashes, version suffixes, keyword/digit/predeclared path elements, elements that merely contain 'vendor') with source-alias variants (also one package under two aliases in two files); TLC judges exactness, canonical paths, unique valid qualifiers, sync iff needed, free source aliases kept; the Registry model (exhaustive over map-order choices) predicts every alias and classifies duplicate/divergent shapes."),
  "C12": dict(cat="model_checking", ref="§6 C12, §5.1", tech=GEN, note=GEN_NOTE,
-   text="Name corpus (all pairs over a 20-name universe incl. numbered/suffixed variants and package names, random triples/quadruples, named results, stub mode): TLC judges pairwise distinctness, keywords, body names, identifiers the signature must still resolve, record fields; the Scope model predicts every final name (zero drift on the unchanged tree)."),
+   text="Name corpus (all pairs over a 32-name universe incl. numbered/suffixed variants and package names, random triples/quadruples, named results, stub mode, methods with 12 variables and a late clash, an unexported alias type), cross-method and random corpora: TLC judges pairwise distinctness, keywords, body names, identifiers the signature must still resolve, record fields; the Scope model predicts every final name (zero drift on the unchanged tree)."),
  "C13": dict(cat="model_checking", ref="§6 C13, §5.1", tech=GEN, note=GEN_NOTE,
    text="One single-parameter method per name: every golint initialism in every casing (thorough: all 2^len), near misses, ordinary names; every unnamed type shape. TLC computes the expected parameter and record-field name from an independent transcription of the documented rule (MoqNames: Exported, DefaultName) and compares."),
  "C14": dict(cat="model_checking", ref="§6 C14, §5.1", tech=GEN, note=GEN_NOTE,
-   text="Every case of the import, multi-interface and type corpora is generated repeatedly with fresh Mocker instances in one process (Go randomises each map iteration) and all outputs must be byte-identical (C14 predicate); the Registry model marks the inputs with map-order choice points."),
+   text="Every case of the import, multi-interface and type corpora is generated repeatedly with fresh Mocker instances in one process (Go randomises each map iteration) and all outputs must be byte-identical (C14 predicate); the Registry model marks the inputs with map-order choice points. Between the first and the second generation of every request the worker performs two generations that fail after rendering (library history); the command-line scenarios whose -out holds own output of another flag set must give the reference bytes."),
  "C16": dict(cat="model_checking", ref="§6 C16, §5.1", tech=GEN, note=GEN_NOTE + " go/format is the reference function for 'gofmt-canonical'.",
-   text="Flag corpus x default/gofmt/noop/goimports: marker line first and before the package clause, gofmt(output)=output, default=gofmt, gofmt(noop)=default byte-for-byte, goimports keeps declarations and import set; equations stated in GenTrace (C16), go/format supplies the reference values."),
+   text="Flag, hand-written, random generic and multi-interface corpora x default/gofmt/noop/goimports: marker line first and before the package clause, gofmt(output)=output, default=gofmt, gofmt(noop)=default byte-for-byte, goimports keeps declarations and import set; equations stated in GenTrace (C16), go/format supplies the reference values."),
  "C20": dict(cat="model_checking", ref="§6 C20, §5.1", tech=GEN, note=GEN_NOTE,
-   text="All ordered argument lists of length 2-3 over a package's interfaces plus alias variants: the output's type declarations are exactly the requested mock names in order; each mock's fields/methods/signature keys/record types equal those of the solo generation (MockShape equality in GenTrace)."),
+   text="All ordered argument lists of length 2-3 over a package's interfaces plus alias variants, seeded random groups of 2-4 interfaces, lists with a finding-shaped neighbour: the output's type declarations are exactly the requested mock names in order; each mock's fields/methods/signature keys/record types equal those of the solo generation (MockShape equality in GenTrace)."),
 })
 CLI_NOTE = ("Trusted: strace (-ff -ttt -y; fault injection with -e inject=write:error=ENOSPC -P <out>) and recursive before/after snapshots as observation "
             "instruments; TLC enumerates the scenarios (spec/Cli.tla, with the requirements as invariants) and judges every observed run (spec/CliTrace.tla). "
@@ -58,13 +58,13 @@ CLI_NOTE = ("Trusted: strace (-ff -ttt -y; fault injection with -e inject=write:
 CLI = "TLA+ model of main.go (Cli.tla) enumerated by TLC, every scenario replayed on the real binary under strace, observations judged by TLC (CliTrace.tla); library-level corpora through GenTrace"
 CHECKS.update({
  "C15": dict(cat="model_checking", ref="§6 C15, §5.3", tech=CLI, note=CLI_NOTE,
-   text="All scenarios of Cli.tla (6 prior states of -out x -rm x output mode x argument shapes) in 5 command-line spellings on the real binary: own output is a fixed point, with -rm the result equals the reference output whatever was there and the unlink precedes the package load (strace). Library level: for the in-place cases of the import/type/name/multi/raw corpora the first output is installed in the package and generation repeated, bytes compared; the Registry+Scope models, run twice with their own aliases fed back, define the shape of the recorded non-idempotence finding."),
+   text="All scenarios of Cli.tla (11 prior states of -out x -rm x 5 output modes x 11 argument shapes x flags -version/-h/undefined x 5 states of the module) in 6 command-line spellings (one through a symbolic link and ..) on the real binary: own output is a fixed point, with -rm the result equals the reference output whatever was there and the unlink precedes the package load (strace). Library level: for the in-place cases of the import/type/name/multi/raw corpora the first output is installed in the package and generation repeated, bytes compared; the Registry+Scope models, run twice with their own aliases fed back, define the shape of the recorded non-idempotence finding."),
  "C17": dict(cat="model_checking", ref="§6 C17, §5.3", tech=CLI, note=CLI_NOTE,
-   text="Every failure point of Cli.tla (argument count, unlink, package load, k-th lookup, format, mkdir, open, write via injected ENOSPC, stdout=/dev/full) x prior states x -rm x spellings on the real binary: exit status, diagnostic, no source on stdout, -out bytes untouched / gone / complete, exactly one truncating open and one write carrying source (strace). Library level: bad argument at each position and failing writers (after 0/1/40/500 bytes): Write called at most once and never on failure."),
+   text="Every failure point of Cli.tla (undefined flag, argument count, unlink, package load in five ways, k-th lookup, duplicate mock name, format, mkdir, open, write via injected ENOSPC also in a pre-existing empty directory, stdout=/dev/full; TMPDIR on another file system) x prior states x -rm x spellings on the real binary: exit status, diagnostic, no source on stdout, -out bytes untouched / gone / complete, exactly one truncating open and one write carrying source (strace); where the scenario contains one of the failures the property enumerates, exit 0 is a violation (MustFail); -version and -h touch nothing. Library level: bad argument at each position and failing writers (after 0/1/40/500 bytes): Write called at most once and never on failure."),
  "C18": dict(cat="model_checking", ref="§6 C18, §5.3", tech=CLI, note=CLI_NOTE,
-   text="Every run of the C17 scenario set: recursive snapshot (type, mode, sha256) of the scratch module before and after must differ only at -out and its new parent directories; strace: no successful unlink/rename/mkdir/chmod/open-for-write by moq or its children on any other path inside the tree."),
+   text="Every run of the C17 scenario set: recursive snapshot (type, mode, sha256) of the scratch module before and after must differ only at -out and its new parent directories, directories that existed before still exist; strace: no successful unlink/rename/mkdir/chmod/open-for-write by moq or its children on any other path inside the tree (paths resolved as the kernel does: symbolic links, then ..)."),
  "C19": dict(cat="model_checking", ref="§6 C19, §5.3", tech=CLI, note=CLI_NOTE,
-   text="Every scenario run must end within the watchdog with exit 0 or 1, no Go panic/fatal text, and where the lookup fails the diagnostic names the argument; library level: the adversarial import/name/generic/raw corpora and 30 kinds of argument strings (empty, ':', trailing ':', funcs, consts, vars of interface type, generic structs, self-referential constraints) must return output or an error - crashes only where the Registry/Scope models predict divergence or a nil dereference (recorded findings)."),
+   text="Every scenario run must end within the watchdog, no Go panic/fatal text, exit 0 only with output (or -version/-h), and the diagnostic names the argument, the duplicate mock name or the undefined flag where that is what fails; library level: the adversarial import/name/generic/raw corpora and 30 kinds of argument strings (empty, ':', trailing ':', funcs, consts, vars of interface type, generic structs, self-referential constraints) must return output or an error - crashes only where the Registry/Scope models predict divergence or a nil dereference (recorded findings)."),
 })
 PENDING = {}
 for p in []:
